@@ -1141,7 +1141,7 @@ def gen_cases(tier, rng):
     return prepare_all(cases)
 
 
-LEVEL_TEXT = ("Machine-checked proof (Coq, 35 theorems) over an executable model of the round trip reaction -> template (ITS construction, reaction centre, "
+LEVEL_TEXT = ("Machine-checked proof (Coq, 37 theorems) over an executable model of the round trip reaction -> template (ITS construction, reaction centre, "
               "SynRule preparation, _invert_template) -> SynReactor OBJECT on the reaction's own reactants / products (options, pattern preparation, "
               "engine call through C06's model of find_subgraph_mappings, pruning by rule automorphisms through C11's model, _glue_graph, _explicit_h, "
               "its_list / smarts_list with their caches, reverse_reaction). Strategy ALL, both branches of the precondition: under C06's contract for "
